@@ -37,6 +37,9 @@ func c02Strings(tier string) []strClass {
 		{"empty", ""}, {"a", "a"}, {"lf", "\n"}, {"crlf", "\r\n"}, {"cr", "a\rb"}, {"a-lf-b", "a\nb"}, {"lf-lf", "a\n\nb"}, {"trailing-lf", "ab\n"}, {"leading-space", "  a  "},
 		{"u2028", "a b"}, {"u2029", "a b"}, {"nul", "a\x00b"}, {"ufffd", "a�b"}, {"nonbmp", "a😀b"}, {"quote-bslash", `"\`},
 		{"html", "<a&b>"}, {"data-prefix", "data: x\nid: 7"}, {"invalid-utf8", "a\xffb"},
+		// values that coincide with words of the protocol's own envelope (a decoder that looks for them as substrings goes wrong)
+		{"kw-error", "error"}, {"kw-result", "result"}, {"kw-jsonrpc", "jsonrpc"}, {"kw-method", "method"}, {"kw-id", "id"}, {"kw-null", "null"},
+		{"json-error-object", `{"jsonrpc":"2.0","id":1,"error":{"code":-32603,"message":"x"}}`}, {"json-result-object", `{"jsonrpc":"2.0","id":1,"result":{}}`},
 		{"4095", rep(4095)}, {"4096", rep(4096)}, {"4097", rep(4097)}, {"65535", rep(65535)}, {"65536", rep(65536)}, {"65537", rep(65537)},
 	}
 	if tier == "thorough" {
@@ -164,6 +167,13 @@ func c02Cases(tier string) []c02Case {
 		{"structured=1.5", func() *mcp.CallToolResult { r := base(); r.StructuredContent = map[string]interface{}{"f": 1.5, "e": 1e21, "z": -0.0}; return r }},
 		{"structured=u2028", func() *mcp.CallToolResult { r := base(); r.StructuredContent = map[string]interface{}{"s": "a b\n"}; return r }},
 		{"structured=typed-struct", func() *mcp.CallToolResult { r := base(); r.StructuredContent = typed{A: 7, B: []string{"x"}}; return r }},
+		{"structured=protocol-keys", func() *mcp.CallToolResult {
+			r := base()
+			r.StructuredContent = map[string]interface{}{"error": map[string]interface{}{"code": 1, "message": "m"}, "result": "r", "id": 99, "jsonrpc": "1.0", "method": "m", "params": []interface{}{}, "content": "c", "isError": true}
+			return r
+		}},
+		{"structured=error-key-only", func() *mcp.CallToolResult { r := base(); r.StructuredContent = map[string]interface{}{"error": nil}; return r }},
+		{"meta-protocol-keys", func() *mcp.CallToolResult { r := base(); r.Meta = map[string]interface{}{"error": "e", "result": 1, "id": "x"}; return r }},
 		{"meta", func() *mcp.CallToolResult { r := base(); r.Meta = map[string]interface{}{"k": "v", "n": 1}; return r }},
 		{"annotations", func() *mcp.CallToolResult { r := base(); r.Content[0] = prio(r.Content[0]); return r }},
 		{"nil-content-slice", func() *mcp.CallToolResult { return &mcp.CallToolResult{} }},
